@@ -2,6 +2,7 @@ import PyrollProofs.HeapSolve
 import PyrollProofs.HeapCopy
 import PyrollProofs.HeapEdit
 import PyrollProofs.HeapReuse
+import PyrollProofs.HeapMake
 import PyrollModel.Gen.C12
 
 /-!
@@ -684,5 +685,183 @@ example :
     exB.h.next ≤ c9 ∧ exB.h.next ≤ c6 ∧ exB.h.next ≤ k' ∧ (exBc.1.h.obj k').kind = .closure ∧
     getF exBc.1.h k' fBIND = some c6 ∧ exBc.1.h.obj k = exB.h.obj k ∧
     (exBc.1.h.obj c6).weak = some exBc.2.2 := by decide
+
+/-! ## 9. construction of a roll pass: the pass owns a FRESH roll, whatever roll object it is built from
+
+`SymmetricRollPass.__init__(self, roll, …)` (`Heap.mkPass`): the caller may hand in a plain `Roll` template, one template
+for several passes, or an object that already belongs to another position - the roll of another pass
+(`RollPass(roll=other_pass.roll, …)`).  The form in which the constructor binds `self.roll` is read by the translator
+(`Gen.C12.rollStore`); the shape of the copy `BaseRollPass.Roll.__init__` makes is `Gen.C12.rollInit` (`rollCopy`). -/
+
+/-- the source still has the shape `Heap.mkPass` assumes: `SymmetricRollPass.__init__` binds `self.roll` by the one
+unconditional statement `self.roll = self.Roll(roll, self)` (no case distinction on what is handed in); in the whole
+package the attribute `roll` of an object is bound in this one place; the constructors of the two concrete pass classes
+hand their `roll` on to it as it is; `BaseRollPass.Roll` is the only `…Roll` class of roll_pass/ with a constructor of its
+own (its shape is `rollInit` in `translated_shapes_certified`) -/
+theorem translated_pass_construction_certified :
+    Gen.C12.rollStore = .copy ∧
+    Gen.C12.rollBindings =
+      [("roll_pass/symmetric_roll_pass.py:SymmetricRollPass.__init__", "self", "self.Roll(roll, self)")] ∧
+    Gen.C12.rollParamUses =
+      [("base.py:BaseRollPass.Roll.__init__", "<defined>"),
+       ("symmetric_roll_pass.py:SymmetricRollPass.__init__", "self.roll = self.Roll(roll, self)"),
+       ("three_roll_pass.py:ThreeRollPass.__init__", "super().__init__(roll, label, **kwargs)"),
+       ("two_roll_pass.py:TwoRollPass.__init__", "super().__init__(roll, label, **kwargs)")] :=
+  ⟨rfl, rfl, rfl⟩
+
+/-- The statement, for a form `rs` of the constructor: in any well-formed typed heap, whatever allocated object `t` is
+handed in as `roll` (template or pass roll), the new pass has under `roll` an object `q` that
+  * did not exist before (so it is not `t` and not the roll of any other position), as the pass itself,
+  * is a pass roll whose back-link is THIS pass, with an empty hook value cache of its own,
+  * has the public entries of `t` by reference (the groove is shared: an input, never written - theorem 1),
+  * is referred to by this pass only (`ptrs` = strong entries, back-links, list items of every object),
+and every object that existed - `t` itself with ITS back-link, the pass `t` belongs to - is exactly as before; the heap
+stays well-formed and typed (so theorems 1-8 apply to what is built). -/
+def PassOwnsFreshRoll (rs : RollStore) : Prop :=
+  ∀ (s : S) (rot : Bool) (disks t : Nat), Good s → t < s.h.next →
+    ∃ q, getF (mkPass rs s rot disks t).1.h (mkPass rs s rot disks t).2 fROLL = some q ∧
+      s.h.next ≤ (mkPass rs s rot disks t).2 ∧ s.h.next ≤ q ∧
+      ((mkPass rs s rot disks t).1.h.obj q).kind = .passRoll ∧
+      ((mkPass rs s rot disks t).1.h.obj q).weak = some (mkPass rs s rot disks t).2 ∧
+      ((mkPass rs s rot disks t).1.h.obj q).cache = [] ∧
+      ((mkPass rs s rot disks t).1.h.obj q).fields = pubFields s.h t ∧
+      (∀ o, q ∈ ((mkPass rs s rot disks t).1.h.obj o).ptrs → o = (mkPass rs s rot disks t).2) ∧
+      (∀ o, o < s.h.next → (mkPass rs s rot disks t).1.h.obj o = s.h.obj o) ∧
+      Good (mkPass rs s rot disks t).1
+
+/-- the form `copy` (what the translator reads from /repo) HAS it -/
+theorem pass_owns_fresh_roll : PassOwnsFreshRoll .copy := by
+  intro s rot disks t g ht
+  have ob := mkPass_copy_obj s rot disks t ht
+  have hid := mkPass_id .copy s rot disks t
+  refine ⟨s.h.next + 2, ?_, by rw [hid]; exact Nat.le_refl _, by omega, ?_, ?_, ?_, ?_, ?_, ?_,
+    mkPass_copy_good g rot disks ht⟩
+  · unfold getF; rw [hid, ob, if_pos rfl]; simp [List.lookup, fSUB, fROLL]
+  · rw [ob, if_neg (by omega), if_neg (by omega), if_pos rfl]
+  · rw [ob, if_neg (by omega), if_neg (by omega), if_pos rfl, hid]
+  · rw [ob, if_neg (by omega), if_neg (by omega), if_pos rfl]
+  · rw [ob, if_neg (by omega), if_neg (by omega), if_pos rfl]
+  · intro o ho
+    rw [hid]
+    rw [ob o] at ho
+    by_cases e0 : o = s.h.next
+    · exact e0
+    · rw [if_neg e0] at ho
+      by_cases e1 : o = s.h.next + 1
+      · rw [if_pos e1] at ho
+        rcases mem_ptrs.1 ho with ⟨f, he⟩ | hw | hi
+        · cases he
+        · have := Option.some.inj hw; omega
+        · cases hi
+      · rw [if_neg e1] at ho
+        by_cases e2 : o = s.h.next + 2
+        · rw [if_pos e2] at ho
+          rcases mem_ptrs.1 ho with ⟨f, he⟩ | hw | hi
+          · have := g.wf.closed t _ (mem_ptrs.2 (Or.inl ⟨f, (mem_pubFields he).1⟩)); omega
+          · have := Option.some.inj hw; omega
+          · cases hi
+        · rw [if_neg e2] at ho
+          have := g.wf.closed o _ ho; omega
+  · intro o ho
+    rw [ob, if_neg (by omega), if_neg (by omega), if_neg (by omega)]
+
+/-- no aliasing between two positions: a pass `a` built from any roll object `t`, then a pass `b` built from THE ROLL
+OF `a`: `b`'s roll is another object than `a`'s, each roll's back-link names its own pass, `a` still has its roll and
+that roll is exactly what it was; what the two rolls share is what `t` had under its public names (the groove) -/
+theorem derived_pass_shares_no_roll (s : S) (g : Good s) (rot1 rot2 : Bool) (d1 d2 t : Nat) (ht : t < s.h.next) :
+    ∃ ra rb, getF (mkPass .copy s rot1 d1 t).1.h (mkPass .copy s rot1 d1 t).2 fROLL = some ra ∧
+      getF (mkPass .copy (mkPass .copy s rot1 d1 t).1 rot2 d2 ra).1.h
+        (mkPass .copy (mkPass .copy s rot1 d1 t).1 rot2 d2 ra).2 fROLL = some rb ∧
+      rb ≠ ra ∧ (mkPass .copy (mkPass .copy s rot1 d1 t).1 rot2 d2 ra).2 ≠ (mkPass .copy s rot1 d1 t).2 ∧
+      ((mkPass .copy (mkPass .copy s rot1 d1 t).1 rot2 d2 ra).1.h.obj rb).weak =
+        some (mkPass .copy (mkPass .copy s rot1 d1 t).1 rot2 d2 ra).2 ∧
+      ((mkPass .copy (mkPass .copy s rot1 d1 t).1 rot2 d2 ra).1.h.obj ra).weak = some (mkPass .copy s rot1 d1 t).2 ∧
+      getF (mkPass .copy (mkPass .copy s rot1 d1 t).1 rot2 d2 ra).1.h (mkPass .copy s rot1 d1 t).2 fROLL = some ra ∧
+      (mkPass .copy (mkPass .copy s rot1 d1 t).1 rot2 d2 ra).1.h.obj ra = (mkPass .copy s rot1 d1 t).1.h.obj ra ∧
+      ((mkPass .copy (mkPass .copy s rot1 d1 t).1 rot2 d2 ra).1.h.obj rb).fields = pubFields s.h t := by
+  obtain ⟨ra, ha, hua, hra, _, hwa, _, hfa, _, _, ga⟩ := pass_owns_fresh_roll s rot1 d1 t g ht
+  have hra' : ra < (mkPass .copy s rot1 d1 t).1.h.next := ga.wf.getF_lt ha
+  have hua' : (mkPass .copy s rot1 d1 t).2 < (mkPass .copy s rot1 d1 t).1.h.next := ga.wf.lt_of_getF ha
+  obtain ⟨rb, hb, hub, hrb, _, hwb, _, hfb, _, hold, _⟩ :=
+    pass_owns_fresh_roll (mkPass .copy s rot1 d1 t).1 rot2 d2 ra ga hra'
+  refine ⟨ra, rb, ha, hb, by omega, by omega, hwb, ?_, ?_, hold ra hra', ?_⟩
+  · rw [hold ra hra']; exact hwa
+  · unfold getF; rw [hold _ hua']; exact ha
+  · rw [hfb]
+    unfold pubFields
+    rw [hfa]
+    unfold pubFields
+    rw [List.filter_filter]
+    congr 1
+    funext e
+    simp
+
+/-- solving one position leaves the other's objects unchanged: a pass built from ANY existing roll object - also the
+roll of another pass - and then solved (any fuel, profile, iteration counts): every object that existed when the pass
+was built is exactly as before, in all components (entries, back-link, cache): the roll handed in, the pass it
+belongs to, that pass's profiles.  (The new pass owns only what its construction made: `mkPass_copy_owned`; a solve
+writes only to what it allocates or the solved unit owns: theorem 1.) -/
+theorem solving_derived_pass_leaves_source_roll (fuel : Nat) (s : S) (g : Good s) (rot : Bool) (disks t p : Nat)
+    (ht : t < s.h.next) (hp : p < s.h.next) (o : Nat) (ho : o < s.h.next) :
+    (solveU P fuel (mkPass .copy s rot disks t).1 (mkPass .copy s rot disks t).2 p).1.h.obj o = s.h.obj o := by
+  have gb := mkPass_copy_good g rot disks ht
+  have hn := mkPass_copy_next s rot disks t
+  have hid := mkPass_id .copy s rot disks t
+  have hno : ¬ Owned (mkPass .copy s rot disks t).1.h (mkPass .copy s rot disks t).2 o := by
+    rw [hid]; intro h
+    have := mkPass_copy_owned rot disks ht h
+    omega
+  rw [solve_frame fuel _ _ p gb.wf (by rw [hid, hn]; omega) (by rw [hn]; omega) o (by rw [hn]; omega) hno]
+  rw [mkPass_copy_obj s rot disks t ht, if_neg (by omega), if_neg (by omega), if_neg (by omega)]
+
+/-- the form `adopt` (`self.roll = roll`) does NOT have it: a pass built from the roll 8 of the example pass 6 holds
+that very object -/
+theorem adopt_form_shares_roll : ¬ PassOwnsFreshRoll .adopt := by
+  intro h
+  obtain ⟨q, hq, _, hle, _⟩ := h ex0 false 0 8 ex0_good (by decide)
+  have e : getF (mkPass .adopt ex0 false 0 8).1.h (mkPass .adopt ex0 false 0 8).2 fROLL = some 8 := by decide
+  rw [e] at hq
+  cases hq
+  revert hle
+  decide
+
+-- non-vacuity: the SOLVED example (`ex1`: the roll 8 of pass 6 has a torque entry and cached values) is well-formed and
+-- typed; a second pass is built from the roll 8 of pass 6
+theorem ex1_good : Good ex1 :=
+  (keeps_solve P model_producers_safe (s := ex0i) ⟨ex0_good.wf, ex0_good.typed⟩ 4 11 2 (by decide) (by decide)
+    (by decide)).good
+def exD : S × Nat := mkPass .copy ex1 true 0 8
+-- the new pass `exD.2` has a new roll (two objects further) whose back-link is the new pass, cache empty, the groove
+-- and the torque entry of roll 8 by reference; roll 8 still belongs to pass 6 and is what it was, cache included
+set_option maxRecDepth 100000 in
+example : (8 : Nat) < ex1.h.next ∧ (ex1.h.obj 8).kind = .passRoll ∧ (ex1.h.obj 8).cache = [cROLL] ∧
+    (getF ex1.h 8 fTORQUE).isSome = true ∧
+    exD.2 = ex1.h.next ∧ getF exD.1.h exD.2 fROLL = some (ex1.h.next + 2) ∧
+    (exD.1.h.obj (ex1.h.next + 2)).weak = some exD.2 ∧ (exD.1.h.obj (ex1.h.next + 2)).cache = [] ∧
+    getF exD.1.h (ex1.h.next + 2) fGROOVE = some 4 ∧
+    getF exD.1.h (ex1.h.next + 2) fTORQUE = getF ex1.h 8 fTORQUE ∧
+    exD.1.h.obj 8 = ex1.h.obj 8 ∧ (exD.1.h.obj 8).weak = some 6 ∧ getF exD.1.h 6 fROLL = some 8 := by decide
+-- the derived pass solved alone with the caller's profile 2: its own roll gets cached values and a new torque entry,
+-- roll 8, pass 6, the template 5 and the groove 4 are exactly what they were
+set_option maxRecDepth 100000 in
+example :
+    let r := (solveU P 3 { exD.1 with its := [1, 1] } exD.2 2).1
+    (r.h.obj (ex1.h.next + 2)).cache = [cROLL] ∧
+    getF r.h (ex1.h.next + 2) fTORQUE ≠ getF ex1.h 8 fTORQUE ∧
+    r.h.obj 8 = ex1.h.obj 8 ∧ r.h.obj 6 = ex1.h.obj 6 ∧ r.h.obj 5 = ex1.h.obj 5 ∧ r.h.obj 4 = ex1.h.obj 4 := by decide
+-- non-vacuity of `derived_pass_shares_no_roll` / `solving_derived_pass_leaves_source_roll`: the hypotheses hold for the
+-- example heaps; a pass built from the template 5 (objects 13, 14, 15), then a pass built from ITS roll 15 (objects 16,
+-- 17, 18): roll 18 names pass 16, roll 15 still names pass 13, both have groove 4
+example : Good ex0 ∧ (5 : Nat) < ex0.h.next ∧
+    getF (mkPass .copy ex0 false 0 5).1.h 13 fROLL = some 15 ∧
+    getF (mkPass .copy (mkPass .copy ex0 false 0 5).1 true 1 15).1.h 16 fROLL = some 18 ∧
+    ((mkPass .copy (mkPass .copy ex0 false 0 5).1 true 1 15).1.h.obj 18).weak = some 16 ∧
+    ((mkPass .copy (mkPass .copy ex0 false 0 5).1 true 1 15).1.h.obj 15).weak = some 13 ∧
+    getF (mkPass .copy (mkPass .copy ex0 false 0 5).1 true 1 15).1.h 18 fGROOVE = some 4 :=
+  ⟨ex0_good, by decide, by decide, by decide, by decide, by decide, by decide⟩
+example : Good ex1 ∧ (8 : Nat) < ex1.h.next ∧ (2 : Nat) < ex1.h.next := ⟨ex1_good, by decide, by decide⟩
+-- the form `adopt` on the same input: the new pass holds object 8 itself, whose back-link names pass 6
+example : getF (mkPass .adopt ex1 true 0 8).1.h (mkPass .adopt ex1 true 0 8).2 fROLL = some 8 ∧
+    ((mkPass .adopt ex1 true 0 8).1.h.obj 8).weak = some 6 := by decide
 
 end C12
